@@ -338,6 +338,13 @@ def _audit(event, args):
             return
         fault = _hit("fs/%s/%s" % (op, pclass))
         if fault is not None:
+            # what the refused / interrupted operation was aimed at (a directory that is
+            # opened or listed is being walked - by a clean-up, typically)
+            try:
+                is_directory = os.path.isdir(_real_path(shown))
+            except (OSError, ValueError, TypeError):
+                is_directory = False
+            S.log.append(["fault", op, pclass, shown, is_directory])
             _enact_fs(fault, op, pclass, shown)
     finally:
         S.busy = False
